@@ -428,6 +428,13 @@ pub broadcast proof fn lemma_u32_as_i32(x: u32)
     assert(x >= 0x8000_0000u32 ==> ((x as i32) as i64) == (x as i64) - 0x1_0000_0000i64) by (bit_vector);
     assert(x < 0x8000_0000u32 ==> ((x as i32) as i64) == (x as i64)) by (bit_vector);
 }
+/// i32 -> u8 truncation keeps the low byte of the two's complement word
+pub broadcast proof fn lemma_i32_as_u8(x: i32)
+    ensures (#[trigger] (x as u8)) as int == tc(x as int, 32) % 256
+{
+    assert((x as u8) as u32 == (x as u32) % 256u32) by (bit_vector);
+    lemma_i32_as_u32(x);
+}
 /// usize -> i32 truncation is the identity below 2^31 (lengths and counts on the wire)
 pub broadcast proof fn lemma_usize_as_i32(x: usize)
     ensures x < 0x8000_0000usize ==> (#[trigger] (x as i32)) as int == x as int
@@ -587,7 +594,7 @@ pub broadcast axiom fn axiom_vec_from_bytes(b: Bytes)
     ensures (#[trigger] <Vec<u8> as FromSpec<Bytes>>::from_spec(b))@ == b.rem();
 pub broadcast axiom fn axiom_vec_from_bytes_obeys()
     ensures #[trigger] <Vec<u8> as FromSpec<Bytes>>::obeys_from_spec();
-pub broadcast group group_casts { lemma_i32_as_usize, lemma_i32_as_u32, lemma_msg_word_mask, lemma_msg_word_type, axiom_into_option, axiom_into_option_obeys, axiom_into_self, axiom_into_self_obeys,
+pub broadcast group group_casts { lemma_i32_as_u8, lemma_i32_as_usize, lemma_i32_as_u32, lemma_msg_word_mask, lemma_msg_word_type, axiom_into_option, axiom_into_option_obeys, axiom_into_self, axiom_into_self_obeys,
     axiom_from_option, axiom_from_option_obeys, axiom_bytes_len, axiom_vec_from_bytes, axiom_vec_from_bytes_obeys, lemma_seq_assoc2, lemma_u8_i8_u8, lemma_i8_u8_i8, lemma_i8_u8_zero, lemma_u32_as_i32, lemma_usize_as_i32,
     lemma_version_or, lemma_version_le_or }
 
